@@ -198,6 +198,11 @@ def scenarios(tier):
                     results=res)
                 bound = None if n <= 2 else (1 if quick else 3)
                 jobs.append((scn, bound, 40 if quick else 900, 1))
+                if n == 2 and (conc in (None, 1) or not quick):
+                    # keyed completion jobs over the real DefaultScheduler
+                    jobs.append((common.variant(
+                        scn, '/dm', scheduler='default_mem'),
+                        1 if quick else 3, 40 if quick else 900, 1))
     # sub-workflow items
     for n, o in ((2, 'SS'), (2, 'SE'), (2, 'ES')):
         res = {'i%d' % k: [o[k]] for k in range(n)}
